@@ -213,6 +213,7 @@ impl Check for ArpResolution {
         }
         let budget = Arp::RESEND_DELAY * Arp::RESEND_TRIES;
         let horizon = Duration::from_millis(3000) + budget * 2 + Duration::from_secs(5);
+        let _release = ReleaseOnDrop(machines.clone());
         let (_st, panics): (Option<_>, _) = run_virtual(async { run_internet_with_timeout(&machines, horizon).await });
         panics_to_failure(&panics)?;
         let res = results.lock().unwrap().clone();
